@@ -25,7 +25,7 @@ def gen_world(rng, tier):
         for _ in range(100):
             name = prefix + rng.choice("ABCDEFGH") + rng.choice(["", "1", "X"])
             size = rng.randint(1, 6)
-            if (name, size) not in used and not any(name == u[0] for u in used if rng.random() < 0.7):
+            if (name, size) not in used and not any(name == u[0] for u in sorted(used) if rng.random() < 0.7):
                 used.add((name, size))
                 return (name, size)
         raise RuntimeError("no kind")
